@@ -184,6 +184,10 @@ def chanMismatch (f : Frame) (nAnalogs nAnalogByFrame : Nat) : Bool :=
   | sf0 :: _ => !(nAnalogs == 0 && nAnalogByFrame == 0) && sf0.length != nAnalogs
   | [] => false
 
+/-- the label check of `c3d::frame`: some label of POINT:LABELS is the name of no point of the frame -/
+def labelMissing (labels : List Bytes) (pts : List Point) : Bool :=
+  labels.any (fun l => !(pts.any fun p => p.name == l))
+
 /-- the position check of `c3d::frame`: some point sits at the position of a label with another name -/
 def outOfOrder : List Bytes → List Point → Bool
   | l :: ls, p :: ps => p.name != l || outOfOrder ls ps
@@ -194,7 +198,7 @@ def C3D.frame (F : FloatOps) (s : C3D) (f : Frame) (idx : Nat := SIZE_MAX) : Out
   (int0 s.groups POINT USED).andThen s fun used =>
   if intToU64 used ≠ 0 ∧ f.pts.length ≠ intToU64 used then .throw .runtime_error s else
   (strsOf s.groups POINT LABELS).andThen s fun labels =>
-  if labels.any (fun l => !(f.pts.any fun p => p.name == l)) then .throw .invalid_argument s else
+  if labelMissing labels f.pts then .throw .invalid_argument s else
   (if f.pts.length > 0 then (float0 s.groups POINT RATE).map isZeroF else .ok false).andThen s fun pz =>
   if pz then .throw .runtime_error s else
   (if f.subs.length > 0 then (float0 s.groups ANALOG RATE).map isZeroF else .ok false).andThen s fun az =>
